@@ -169,11 +169,14 @@ CHECKS = {
     "C12": dict(
         text="Coq (any arithmetic): forcing and Jacobian do not depend on the dense layout / vector length "
              "(C12_*_does_not_depend_on_layout); with C05 the factored matrix is the same expression for the separate "
-             "and in-place linear solvers. Implementation: each problem solved with 3-6 configurations of the cross "
+             "and in-place linear solvers; the linear solution is the same for the four LU algorithms and both linear "
+             "solvers in any field (C12_linear_solution_does_not_depend_on_lu_algorithm: C04's four factor-then-solve "
+             "theorems plus uniqueness of the solution of a system with an LU factorisation). Implementation: each problem solved with 3-6 configurations of the cross "
              "product {row-major, L=2,3,4} x {CSR, CSC} x 4 LU x reorder, concentrations by name compared at 1e-7. The "
              "separate-vs-in-place disagreement after two rejections found earlier is fixed (fix: e318cbe).",
-        note="PARTIAL: the composition through the four LU algorithms depends on C03's missing theorem; rounding-level "
-             "agreement is measured, not proved.",
+        note="PARTIAL: exact-arithmetic independence is proved per ingredient (forcing, Jacobian, factored matrix, linear "
+             "solution); in floating point the algorithms round differently, and that rounding-level agreement over a whole "
+             "Solve is measured on the implementation, not proved.",
         technique="Coq proof (layout-independence corollaries) + cross-configuration oracle on the assembled solvers",
         ref="6 C12"),
     "C13": dict(
